@@ -2,9 +2,10 @@
 # usage: tools/try_mutant.sh <patch.diff> <check args...>   -- applies the patch to /repo, runs ./check, always reverts
 patch="$(realpath "$1")"; shift
 cd /verif || exit 2
-if ! git -C /repo apply --check "$patch" 2>/dev/null; then echo "PATCH DOES NOT APPLY: $patch"; git -C /repo apply --3way "$patch" 2>&1 | tail -3; git -C /repo checkout -- . ; exit 3; fi
-git -C /repo apply "$patch"
+R="${VERIF_REPO:-/repo}"
+if ! git -C "$R" apply --check "$patch" 2>/dev/null; then echo "PATCH DOES NOT APPLY: $patch"; git -C "$R" apply --3way "$patch" 2>&1 | tail -3; git -C "$R" checkout -- . ; exit 3; fi
+git -C "$R" apply "$patch"
 ./check "$@" --no-evidence; rc=$?
-git -C /repo checkout -- .
+git -C "$R" checkout -- .
 echo "check exit code: $rc"
 exit $rc
